@@ -116,6 +116,21 @@ SubNext(st, sec, incl) ==
           THEN (IF left0 = 1 THEN end ELSE [ok |-> TRUE, p |-> st.p, v |-> st.v, c |-> CursorAtC(st.p, sec, c1.nx)])
           ELSE [ok |-> TRUE, p |-> st.p, v |-> st.v, c |-> c1]
 
+\* ---- readers of the EDNS options (edns_iterator.rs): the cursor is on an option, not on a record ----
+OptionAt(p, off) == [off |-> off, ne |-> off, nx |-> off + 4 + U16(p, off + 2), tomb |-> FALSE]
+\* options behind the cursor: the data of the OPT record ends RDLENGTH bytes behind offset_edns
+OptDataEnd(p, v) == v.oedns + U16(p, v.oedns - 2)
+SubNextE(st) ==
+  LET end == [ok |-> FALSE, p |-> st.p, v |-> st.v, c |-> st.c] IN
+  IF st.c.tomb THEN (IF st.v.ecount = 0 THEN end ELSE [ok |-> TRUE, p |-> st.p, v |-> st.v, c |-> OptionAt(st.p, st.v.oedns)])
+  ELSE IF st.c.nx >= OptDataEnd(st.p, st.v) THEN end
+  ELSE [ok |-> TRUE, p |-> st.p, v |-> st.v, c |-> OptionAt(st.p, st.c.nx)]
+\* in-place decompression through an option cursor: ParsedPacket::recompute(), cursor moved with offset_edns
+SubUncompressE(st) ==
+  IF ~st.v.mc THEN Okay(st)
+  ELSE LET q == UncompressOut(st.p)  v2 == ViewMC(q, FALSE) IN
+       Okay([p |-> q, v |-> v2, c |-> IF st.c.tomb THEN st.c ELSE OptionAt(q, st.c.off - st.v.oedns + v2.oedns)])
+
 \* ---- insert_rr on the object (no cursor) ----
 NamesRaw(ns) == LET RECURSIVE F(_) F(k) == IF k > Len(ns) THEN <<>> ELSE RawName(ns[k]) \o F(k + 1) IN F(1)
 RRWire(r) ==
